@@ -43,6 +43,14 @@ def main(argv):
         bad = [o for o in obs if (o.expect == "unsat" and o.verdict != "unsat") or (o.kind == "cover" and o.verdict == "unsat")]
         if canaries and all(o.verdict == "unsat" for o in canaries):
             bad.append(canaries[0])
+        bad = [o for o in bad if o.kind != "callret"]
+        sites = {}
+        for o in obs:
+            if o.kind == "callret":
+                sites.setdefault(o.extra.get("site"), []).append(o)
+        for cs in sites.values():
+            if all(o.verdict == "unsat" for o in cs):
+                bad.append(cs[0])
         print(f"== {k}: {res['status']} {res['reason']} obligations={len(res['obligations'])} covers={len(res['covers'])} "
               f"failed={len(bad)} gen={res['time']:.2f}s solve={summ['wall']:.2f}s paths={res['paths']} checks={res.get('solver_checks')}")
         for o in obs:
